@@ -18,7 +18,9 @@ NK == Len(MidKinds)
 Singles == [j \in 1..NK |-> <<MidKinds[j]>>]
 TPairs == Cat([q \in 1..2 |-> LET t == <<"blank", "call0">>[q] IN
                  [j \in 1..NK |-> <<t, MidKinds[j]>>] \o [j \in 1..NK |-> <<MidKinds[j], t>>]])
-APairs == Cat([a \in 1..NK |-> [c \in 1..NK |-> <<MidKinds[a], MidKinds[c]>>]])
+Decl == {"public", "global"}                      \* (two declarations of the same symbol in one section: an error)
+APairs == SelectSeq(Cat([a \in 1..NK |-> [c \in 1..NK |-> <<MidKinds[a], MidKinds[c]>>]]),
+                    LAMBDA m : ~(m[1] \in Decl /\ m[2] \in Decl))
 MidList == <<<<>>>> \o Singles \o (IF Full THEN APairs ELSE TPairs)
 NF == Len(FolKinds)
 NB == Len(MidList) * 2 * NF                       \* number of blocks
